@@ -1,6 +1,7 @@
 """C11 — TDD handles implement one fixed three-valued logic (Kleene not/and/or, Lukasiewicz imp/equiv, ite3)."""
 import json
 import os
+import re
 import vf
 
 META = {
@@ -32,7 +33,13 @@ def handle_bad(ctx, binp, drv, cases, bad):
             continue
         seen_kinds.add(kind)
         header, ops = by_id[cid]
-        small, smsg = vf.shrink_case(ctx, binp, drv, header, ops, kind)
+        # prefer the first failing line on its own (the most direct witness), else ddmin
+        small, smsg = ops, None
+        m = re.search(r"step=(\d+)", msg)
+        if m and int(m.group(1)) < len(ops):
+            small, smsg = vf.shrink_case(ctx, binp, drv, header, [ops[int(m.group(1))]], kind)
+        if smsg is None:
+            small, smsg = vf.shrink_case(ctx, binp, drv, header, ops, kind)
         smsg = smsg or msg
         sig = f"{kind}:" + ";".join(small) if len(small) <= 6 else f"{kind}:case-{cid}"
         vf.report_violation(
